@@ -18,10 +18,9 @@ A_BMP = [0x3a3, 0x3c3, 0x3c2, 0x130, 0x2028, 0x3000, 0xfeff, 0xfffd, 0x4e2d, 0x3
 A_ASTRAL = [(0xd83d, 0xde00), (0xd801, 0xdc00), (0xd801, 0xdc28), (0xdbff, 0xdfff), (0xd800, 0xdc00)]
 A_LONE = [0xd800, 0xdbff, 0xdc00, 0xdfff, 0xd83d, 0xde00]
 
-SIG_CONCAT = "concat-unscanned-imported-operands-split-utf8-sequence"
 SIG_EXPORT = "export-imported-invalid-utf8-returns-original-bytes"
 SIG_LONE = "lone-surrogate-replaced-by-fffd:"
-SIG_HANG = "replaceAll-empty-pattern-on-utf16-stored-subject-never-returns"
+SIG_TOINT = "imported-utf16-string-ToInteger-ToFloat-not-parsed"
 
 
 def is_hi(c): return 0xd800 <= c <= 0xdbff
@@ -183,10 +182,6 @@ class Gen:
             return ("op", op, [sub()])
         if op in ("replace", "replaceAll", "sj"):
             pat = self.tree(pal, 0)
-            if op == "replaceAll" and any(isinstance(c, tuple) or c >= 0x80 for c in pal):
-                # known finding (never returns): replaceAll("", x) on a UTF-16-stored subject; probed separately
-                while pat[2] == "":
-                    pat = self.tree(pal, 0)
             return ("op", op, [sub(), pat, self.tree(pal, min(1, depth - 1))])
         if op in ("rreplace", "rsj"):
             pu = self.units(pal, maxlen=2) or [pal[0] if not isinstance(pal[0], tuple) else pal[0][0]]
@@ -227,7 +222,7 @@ ID_FORMS = ["slice0", "plus", "plusr", "str", "tpl1", "tostr", "obj", "joinc", "
             "rep1", "pad0", "key", "mapk", "substr0", "trimid", "repl", "sym", "at"]
 OPAQUE = ["lower", "upper", "norm", "normNFD", "normNFKC", "normNFKD", "llower", "lupper"]
 OPAQUE_NAME = {"lower": "toLowerCase", "llower": "toLowerCase", "upper": "toUpperCase", "lupper": "toUpperCase"}
-N_FIRST = list(range(14)) + list(range(100, 109))
+N_FIRST = list(range(16)) + list(range(100, 111))
 
 
 def rpn(t):
@@ -485,12 +480,6 @@ class Check:
                 elif "!SPEC" in mo:
                     # implementation agrees with the mechanism model, and the mechanism model departs from the spec
                     sig = "spec-violation:" + w[0]
-                    if w[0] == "cat":
-                        a, b = src.get(int(w[2])), src.get(int(w[3]))
-                        if a and b and a[0] == "tv" and b[0] == "tv":
-                            x, y = bytes.fromhex(a[1].replace("-", "")), bytes.fromhex(b[1].replace("-", ""))
-                            if len(x) > 16 and len(y) > 16 and go_decode(x + y) != go_decode(x) + go_decode(y):
-                                sig = SIG_CONCAT
                     fails.append((sig, "%s: result units differ from the specification (operands' units appended / sliced)" % l, i))
         return fails, agree
 
@@ -598,7 +587,9 @@ class Check:
             if d.get("lt") != "0" or d.get("gt") != "0" or d.get("cmp") != "0":
                 bad.append("order")
             if bad:
-                if bad == ["go8"] and d["u1"] == d["u2"] and "imp" in (d["t1"], d["t2"]) and d["x1"] != d["x2"] and (
+                if set(bad) <= {"js14", "go8"} and d["u1"] == d["u2"] and sorted((d["t1"], d["t2"])) == ["imp", "uni"]:
+                    fails.append((SIG_TOINT, "ToInteger()/ToFloat() of a Go-imported non-ASCII string answer 0/NaN without parsing, the same string stored as UTF-16 is parsed (units %s)" % d["u1"]))
+                elif bad == ["go10"] and d["u1"] == d["u2"] and "imp" in (d["t1"], d["t2"]) and d["x1"] != d["x2"] and (
                         not valid_utf8(bytes.fromhex(d["x1"][1:])) or not valid_utf8(bytes.fromhex(d["x2"][1:]))):
                     fails.append((SIG_EXPORT, "Export() of an imported string holding invalid UTF-8 returns the original bytes; an equal string in another representation exports U+FFFD"))
                 else:
@@ -606,8 +597,8 @@ class Check:
                                   "equal-unit strings told apart by %s (tags %s/%s, units %s / %s)" % (",".join(bad), d["t1"], d["t2"], d["u1"], d["u2"])))
         elif mu1 is not None and mu2 is not None and d["u1"] == mu1 and d["u2"] == mu2:
             # different strings: every identity observation must say "different", and < must be the unit order
-            must0 = [i for i in range(len(js)) if i != 5 and js[i] != "0"] if not js.startswith("EXC") else [99]
-            must0g = [i for i in range(min(6, len(go))) if go[i] != "0"]
+            must0 = [i for i in range(min(14, len(js))) if i != 5 and js[i] != "0"] if not js.startswith("EXC") else [99]
+            must0g = [i for i in range(min(6, len(go))) if go[i] != "0"]   # go6.. (length, numeric value, truthiness, export) may coincide
             s = lex_sign(unhexu(mu1), unhexu(mu2))
             order_ok = (d.get("lt") == ("1" if s < 0 else "0")) and (d.get("gt") == ("1" if s > 0 else "0")) and d.get("cmp") == str(s)
             if must0 or must0g or not order_ok:
@@ -633,8 +624,9 @@ class Check:
             out = r[0] if r else "ERR no answer"
             if out.startswith("TIMEOUT") or out == "ERR no answer":
                 # confirm on its own with a generous limit before believing it (the machine may just be busy)
-                env = dict(os.environ); env["C06_CASE_TIMEOUT_MS"] = "30000"
-                rc, o2, _ = ctx.run_lines([self.h], [it["line"]], timeout=120, env=env)
+                # inconclusive: retried alone with a limit that only a genuine hang can exceed (the cases take microseconds)
+                env = dict(os.environ); env["C06_CASE_TIMEOUT_MS"] = "45000"
+                rc, o2, _ = ctx.run_lines([self.h], [it["line"]], timeout=180, env=env)
                 out = o2[0] if o2 else "TIMEOUT"
             f = it["line"].split()[1 if it.get("opaque") is None else 2]
             self.firsts[f] = self.firsts.get(f, 0) + 1
@@ -713,16 +705,12 @@ class Check:
                 continue
             def f(x):
                 if x[0] == "leaf":
-                    if x[1] in ("U.jp", "B.go"):
+                    if x[1] == "U.jp":
                         feats.add(x[1])
                 else:
                     b = x[1].split(":")[0]
-                    if b in ("trim", "trimStart", "trimEnd"):
-                        feats.add("trim")
-                    elif b == "jrt":
+                    if b == "jrt":
                         feats.add("U.jp")
-                    elif b == "replaceAll":
-                        feats.add(b)
                 return False
             has_tok(t, f)
         return tuple(sorted(feats))
@@ -810,16 +798,6 @@ class Check:
             base = node[1].split(":")[0]
             if base == "jrt" and lost:
                 return SIG_LONE + "JSON.parse", node
-            if base in ("trim", "trimStart", "trimEnd") and lost:
-                return SIG_LONE + "trim", node
-            if base in ("cat", "ccat") and all(c[0] == "leaf" and c[1] == "B.go" for c in node[2]):
-                x, y = bytes.fromhex(node[2][0][2]), bytes.fromhex(node[2][1][2])
-                if len(x) > 16 and len(y) > 16 and go_decode(x + y) != go_decode(x) + go_decode(y):
-                    return SIG_CONCAT, node
-            if base == "replaceAll" and bhu is None and node[2][1][0] == "leaf" and node[2][1][2] == "":
-                subj = self.model_units([node[2][0]])[0]
-                if subj and any(c >= 0x80 for c in unhexu(subj)):
-                    return SIG_HANG, node
             return ("units-differ-from-spec:" if bhu is not None else "evaluation-fails:") + base, node
         return None, None
 
@@ -840,9 +818,37 @@ def load_corpus():
     return out
 
 
+def regen_own(ctx, timeout=600):
+    """Same as ctx.regen() but builds the extractor from extract/main.go + extract/c06.go only, so that another
+    property's generator being edited at the same moment cannot break this check. Stale generated files are
+    deleted first; a failure is a broken tie obligation."""
+    import shutil
+    gen = os.path.join(LEAN, "GojaModel", "Generated")
+    os.makedirs(gen, exist_ok=True)
+    for fn in os.listdir(gen):
+        if fn.startswith(PROP + "_") or fn == PROP + ".lean":
+            os.remove(os.path.join(gen, fn))
+    src = os.path.join(BUILD, "extract_c06")
+    shutil.rmtree(src, ignore_errors=True)
+    os.makedirs(src)
+    for fn in ("main.go", "c06.go", "go.mod"):
+        shutil.copyfile(os.path.join(ROOT, "extract", fn), os.path.join(src, fn))
+    exe = os.path.join(BUILD, "extract_c06_bin")
+    rc, out, err = sh(["go", "build", "-o", exe, "."], cwd=src, env=GOENV, timeout=timeout)
+    if rc != 0:
+        ctx.obligation("tie.extract.build", "tie", False, err)
+        return False
+    rc, out, err = sh([exe, "-repo", REPO, "-out", gen, "-only", PROP], timeout=timeout)
+    if rc != 0:
+        ctx.obligation("tie.extract.run", "tie", False, out + err)
+        return False
+    ctx.stats["extract"] = out.strip().splitlines()[-5:]
+    return True
+
+
 def setup(ctx, need_model=True):
     ck = Check(ctx)
-    ok_regen = ctx.regen()
+    ok_regen = regen_own(ctx)
     ok, errs = ctx.lake_build(["GojaModel.C06.Props", "GojaModel.C06.Tie", "model_c06"])
     if ok_regen and ok:
         ctx.obligation("tie:StrSites+threshold", "tie", True, "Generated.C06_Sites = Expected (Tie.lean) checked by the Lean kernel")
@@ -882,19 +888,9 @@ def main(ctx):
     ctx.obligation("corr:corpus", "correspondence", not dis, "; ".join(d[1] for d in dis[:3]))
     ctx.stats["corpus_cases"] = len(seqs) + len(pairs)
 
-    # known finding kept reachable without stalling the generated streams: replaceAll("", x) on a UTF-16-stored subject
-    env = dict(os.environ); env["C06_CASE_TIMEOUT_MS"] = "400"
-    probe = "E U.lit:00e9 U.lit: U.lit:0078 replaceAll"
-    rc, out, _ = ctx.run_lines([ck.h], [probe], timeout=60, env=env)
-    ctx.count(1)
-    if out[:1] == ["TIMEOUT"]:
-        ctx.violation(SIG_HANG, '"\\u00e9".replaceAll("", "x") does not return (watchdog 400 ms); specification: "x\\u00e9x"',
-                      {"kind": "input", "stream": "B", "ops": [probe], "observed": out, "expected_spec_units": ["007800e90078"]})
-    elif out[:1] != ["uni u=007800e90078"]:
-        ctx.violation("units-differ-from-spec:replaceAll", "%s -> %s" % (probe, out), {"kind": "input", "ops": [probe], "observed": out})
     ctx.log('corpus done')
     # ---------------- stream A
-    nseq = 400 if quick else 3000
+    nseq = 300 if quick else 3000
     seqs = [gen_sequence(rng, rng.choice([8, 16, 30])) for _ in range(nseq)]
     dis = ck.run_sequences(seqs, "generated")
     if dis and ck.model_ok:
@@ -914,7 +910,7 @@ def main(ctx):
     ctx.log('stream A done')
     # ---------------- stream B
     g = Gen(rng, ctx.tier)
-    ntree = 800 if quick else 6000
+    ntree = 600 if quick else 6000
     trees, pals = [], []
     for _ in range(ntree):
         pal = g.palette()
